@@ -1032,7 +1032,7 @@ receives `B` (they come out of it); handles are neither created nor lost. -/
 theorem Inv.reitems {σ : State} {T A B : List V} {id : Nat} {b : Block} {items' : List (Bytes × V)} {cap' : Nat}
     (inv : Inv σ (A ++ T)) (hb : getB σ.heap id = .ok b)
     (hcount : ∀ j, occ j (items'.map (·.2)) + occ j B = occ j (bvals b) + occ j A)
-    (hmem : ∀ v, v ∈ items'.map (·.2) ++ B → v ∈ bvals b ++ A)
+    (hmem : ∀ v, v ∈ items'.map (·.2) ++ B → handleOf v = none ∨ v ∈ bvals b ++ A)
     (hsorted : b.isObj = true → SortedItems items')
     (hnoself : ∀ v ∈ items'.map (·.2), handleOf v ≠ some id) :
     Inv { σ with heap := setB σ.heap id { b with items := items', cap := cap' } } (B ++ T) := by
@@ -1050,7 +1050,8 @@ theorem Inv.reitems {σ : State} {T A B : List V} {id : Nat} {b : Block} {items'
         · exact Or.inl (Or.inl hx)
         · have := hmem x (by simp [hx])
           simp only [List.mem_append] at this
-          rcases this with h1 | h1
+          rcases this with h0 | h1 | h1
+          · rw [h0] at hid'; cases hid'
           · exact Or.inr (mem_hvals_of_getB hb h1)
           · exact Or.inl (Or.inr (Or.inl h1))
         · exact Or.inl (Or.inr (Or.inr hx))
@@ -1059,7 +1060,8 @@ theorem Inv.reitems {σ : State} {T A B : List V} {id : Nat} {b : Block} {items'
         · simp only [ovals, hbv] at h1
           have := hmem x (by simp [h1])
           simp only [List.mem_append] at this
-          rcases this with h2 | h2
+          rcases this with h0 | h2 | h2
+          · rw [h0] at hid'; cases hid'
           · exact Or.inr (mem_hvals_of_getB hb h2)
           · exact Or.inl (by simp [h2])
     obtain ⟨b2, hb2, hk2⟩ := inv.wf.live x hx' id' hid'
@@ -1195,6 +1197,538 @@ theorem Inv.alloc {σ : State} {T : List V} {b : Block} (inv : Inv σ (bvals b +
         simp at this; omega
       rw [getB_append_left _ hlt] at hb2
       exact inv.noself id' b2 hb2 x hx
+
+
+
+
+/-! ## a block that moves -/
+
+theorem hvals_snoc (h : Heap) (ob : Option Block) : hvals (h ++ [ob]) = hvals h ++ ovals ob := by
+  simp [hvals_append, hvals_cons, hvals_nil]
+
+/-- the block `id`, referenced only by the owned handle `hd`, moves to a new id (same elements, new capacity) -/
+theorem Inv.moveBlock {σ : State} {T : List V} {id : Nat} {b : Block} (newcap : Nat)
+    (inv : Inv σ (mkHandle b.isObj id :: T)) (hb : getB σ.heap id = .ok b) (hrc : b.rc = 1) :
+    Inv { σ with heap := (σ.heap.set id none) ++ [some { b with cap := newcap }] }
+      (mkHandle b.isObj σ.heap.length :: T) := by
+  have hlt := getB_lt hb
+  have hbe := getB_eq.mp hb
+  have hcnt := inv.wf.counted id b hb
+  simp only [occ_append, occ_cons, handleOf_mkHandle, if_true] at hcnt
+  have z1 : occ id σ.slots = 0 := by omega
+  have z2 : occ id T = 0 := by omega
+  have z3 : occ id (hvals σ.heap) = 0 := by omega
+  have hset := fun x => occ_hvals_set x σ.heap id none hlt
+  simp only [hbe, Option.getD_some, ovals, occ_nil] at hset
+  have hlive : ∀ x, (x ∈ σ.slots ++ (mkHandle b.isObj id :: T) ∨ x ∈ hvals σ.heap) → ∀ j, handleOf x = some j → j < σ.heap.length :=
+    fun x hx j hj => inv.wf.handle_lt hx hj
+  have hlen : (σ.heap.set id none).length = σ.heap.length := by simp
+  -- every remaining handle differs from `id`
+  have hne : ∀ x, (x ∈ σ.slots ∨ x ∈ T ∨ x ∈ hvals σ.heap) → handleOf x ≠ some id := by
+    intro x hx
+    rcases hx with hx | hx | hx
+    · exact (occ_eq_zero_iff _ _).mp z1 x hx
+    · exact (occ_eq_zero_iff _ _).mp z2 x hx
+    · exact (occ_eq_zero_iff _ _).mp z3 x hx
+  have getOld : ∀ j, j ≠ id → j < σ.heap.length →
+      getB ((σ.heap.set id none) ++ [some { b with cap := newcap }]) j = getB σ.heap j := by
+    intro j hj hjl
+    rw [getB_append_left _ (by simpa using hjl), getB_set_ne _ hj]
+  have getNew : getB ((σ.heap.set id none) ++ [some { b with cap := newcap }]) σ.heap.length = .ok { b with cap := newcap } := by
+    have := getB_alloc_new (σ.heap.set id none) { b with cap := newcap }
+    rwa [hlen] at this
+  have liveCases : ∀ j b2, getB ((σ.heap.set id none) ++ [some { b with cap := newcap }]) j = .ok b2 →
+      (j = σ.heap.length ∧ b2 = { b with cap := newcap }) ∨ (j ≠ id ∧ j < σ.heap.length ∧ getB σ.heap j = .ok b2) := by
+    intro j b2 hb2
+    by_cases hj : j = σ.heap.length
+    · subst hj; rw [getNew] at hb2; cases hb2; exact Or.inl ⟨rfl, rfl⟩
+    · have hjl : j < σ.heap.length := by
+        have := getB_lt hb2
+        simp at this; omega
+      by_cases hji : j = id
+      · subst hji
+        rw [getB_append_left _ (by simpa using hjl)] at hb2
+        exact absurd hb2 (getB_freeB_same b2)
+      · rw [getOld j hji hjl] at hb2
+        exact Or.inr ⟨hji, hjl, hb2⟩
+  refine ⟨⟨?_, ?_, ?_⟩, ?_, ?_⟩
+  · intro x hx j hj
+    simp only [hvals_snoc, ovals] at hx
+    by_cases hx0 : x = mkHandle b.isObj σ.heap.length
+    · subst hx0
+      rw [handleOf_mkHandle] at hj; cases hj
+      exact ⟨_, getNew, (isObjV_mkHandle _ _).symm⟩
+    · have hx' : x ∈ σ.slots ∨ x ∈ T ∨ x ∈ hvals σ.heap := by
+        simp only [List.mem_append, List.mem_cons] at hx
+        rcases hx with (h1 | h1 | h1) | h1 | h1
+        · exact Or.inl h1
+        · exact absurd h1 hx0
+        · exact Or.inr (Or.inl h1)
+        · rcases mem_hvals_set h1 with h2 | h2
+          · exact Or.inr (Or.inr h2)
+          · simp [ovals] at h2
+        · exact Or.inr (Or.inr (mem_hvals_of_getB hb h1))
+      have hx'' : x ∈ σ.slots ++ (mkHandle b.isObj id :: T) ∨ x ∈ hvals σ.heap := by
+        rcases hx' with h1 | h1 | h1
+        · exact Or.inl (by simp [h1])
+        · exact Or.inl (by simp [h1])
+        · exact Or.inr h1
+      obtain ⟨b2, hb2, hk2⟩ := inv.wf.live x hx'' j hj
+      have hji : j ≠ id := by intro e; subst e; exact hne x hx' hj
+      exact ⟨b2, by rw [getOld j hji (getB_lt hb2)]; exact hb2, hk2⟩
+  · intro j b2 hb2
+    simp only [hvals_snoc, ovals, occ_append, occ_cons, handleOf_mkHandle]
+    rcases liveCases j b2 hb2 with ⟨hj, hb2e⟩ | ⟨hji, hjl, hb2o⟩
+    · subst hj; subst hb2e
+      have y1 : occ σ.heap.length σ.slots = 0 := occ_zero_of_lt (fun v hv => hlive v (Or.inl (by simp [hv])))
+      have y2 : occ σ.heap.length T = 0 := occ_zero_of_lt (fun v hv => hlive v (Or.inl (by simp [hv])))
+      have y3 : occ σ.heap.length (hvals σ.heap) = 0 := occ_zero_of_lt (fun v hv => hlive v (Or.inr hv))
+      have y4 := hset σ.heap.length
+      have y5 : occ σ.heap.length (bvals b) = 0 :=
+        occ_zero_of_lt (fun v hv => hlive v (Or.inr (mem_hvals_of_getB hb hv)))
+      have y6 : bvals { b with cap := newcap } = bvals b := rfl
+      simp only [y6]
+      simp [y1, y2, y5, hrc]
+      omega
+    · have hc := inv.wf.counted j b2 hb2o
+      have h4 := hset j
+      have y6 : bvals { b with cap := newcap } = bvals b := rfl
+      simp only [occ_append, occ_cons, handleOf_mkHandle, y6] at hc ⊢
+      have e1 : ¬ (some id = some j) := by intro e; cases e; exact hji rfl
+      have e2 : ¬ (some σ.heap.length = some j) := by intro e; cases e; omega
+      simp only [e1, e2, if_false] at hc ⊢
+      omega
+  · intro j b2 hb2
+    rcases liveCases j b2 hb2 with ⟨hj, hb2e⟩ | ⟨hji, hjl, hb2o⟩
+    · subst hb2e; simp [hrc]
+    · exact inv.wf.pos j b2 hb2o
+  · intro j b2 hb2 ho
+    rcases liveCases j b2 hb2 with ⟨hj, hb2e⟩ | ⟨hji, hjl, hb2o⟩
+    · subst hb2e; exact inv.sorted id b hb ho
+    · exact inv.sorted j b2 hb2o ho
+  · intro j b2 hb2 x hx
+    rcases liveCases j b2 hb2 with ⟨hj, hb2e⟩ | ⟨hji, hjl, hb2o⟩
+    · subst hb2e; subst hj
+      intro e
+      have := hlive x (Or.inr (mem_hvals_of_getB hb hx)) _ e
+      omega
+    · exact inv.noself j b2 hb2o x hx
+
+
+theorem setValAt_setValAt : ∀ (l : List (Bytes × V)) (i : Nat) (a c : V),
+    Map.setValAt (Map.setValAt l i a) i c = Map.setValAt l i c
+  | [], _, _, _ => rfl
+  | (k, _) :: t, 0, _, _ => rfl
+  | kv :: t, i + 1, a, c => by simp [Map.setValAt, setValAt_setValAt t i a c]
+
+theorem ValidLoc.parent_ne {σ : State} {T : List V} (inv : Inv σ T) {l : Loc} {v : V} {id : Nat}
+    (hr : readLoc σ l = .ok v) (hv : handleOf v = some id) : parentOf l ≠ some id := by
+  cases l with
+  | slot k => simp [parentOf]
+  | item P i =>
+    simp only [parentOf, ne_eq, Option.some.injEq]
+    intro e; subst e
+    simp only [readLoc] at hr
+    cases hb : getB σ.heap P with
+    | error e => simp [hb] at hr
+    | ok bP =>
+      simp only [hb] at hr
+      cases hi : bP.items[i]? with
+      | none => simp [hi] at hr
+      | some kv =>
+        simp only [hi, Except.ok.injEq] at hr
+        have hm : v ∈ bvals bP := by
+          rw [← hr]; exact List.mem_map_of_mem (List.mem_of_getElem? hi)
+        exact inv.noself P bP hb v hm hv
+
+theorem relocate_unfold {σ : State} {l : Loc} {id newcap : Nat} {b : Block} (guard : Bool)
+    (hb : getB σ.heap id = .ok b) (hrc : b.rc = 1) :
+    Var.relocate guard σ l id newcap =
+      match Var.writeLoc { σ with heap := (σ.heap.set id none) ++ [some { b with cap := newcap }] } l (mkHandle b.isObj σ.heap.length) with
+      | .error e => .error e
+      | .ok σ' => .ok (σ', σ.heap.length) := by
+  have hlt := getB_lt hb
+  have hg : (guard && decide (b.rc > 1)) = false := by simp [hrc]
+  unfold Var.relocate
+  simp only [hb, hg, allocB, freeB]
+  rw [List.set_append_left _ _ hlt]
+  rfl
+
+/-- growth of a block that has a single handle: the block moves, the handle (the Var at `l`) follows -/
+theorem Inv.relocate {σ : State} {T : List V} {l : Loc} {id newcap : Nat} {b : Block} (guard : Bool)
+    (inv : Inv σ T) (hl : ValidLoc σ l) (hr : readLoc σ l = .ok (mkHandle b.isObj id))
+    (hb : getB σ.heap id = .ok b) (hrc : b.rc = 1) :
+    ∃ σ', Var.relocate guard σ l id newcap = .ok (σ', σ.heap.length) ∧ Inv σ' T ∧
+      σ'.slots.length = σ.slots.length ∧ ValidLoc σ' l ∧
+      readLoc σ' l = .ok (mkHandle b.isObj σ.heap.length) ∧
+      getB σ'.heap σ.heap.length = .ok { b with cap := newcap } := by
+  have hlt := getB_lt hb
+  have hpar := ValidLoc.parent_ne inv hr (handleOf_mkHandle _ _)
+  rw [relocate_unfold guard hb hrc]
+  cases l with
+  | slot k =>
+    simp only [ValidLoc] at hl
+    -- 1. take the handle out of the Var, 2. move the block, 3. put the new handle in
+    obtain ⟨σa, old, hra, hwa, inva, doma, _⟩ :=
+      ((Inv.scalar (v := V.none) rfl).mpr inv).writeLoc (l := .slot k) hl (fun _ _ => by simp [handleOf])
+    rw [hr] at hra; cases hra
+    simp only [Var.writeLoc, hl, if_true, Except.ok.injEq] at hwa
+    subst hwa
+    have invb := Inv.moveBlock newcap inva hb hrc
+    have hlb : ValidLoc { heap := (σ.heap.set id none) ++ [some { b with cap := newcap }], slots := σ.slots.set k V.none } (.slot k) := by
+      simp [ValidLoc, hl]
+    obtain ⟨σc, old2, hrc2, hwc, invc, domc, hrc3⟩ := invb.writeLoc hlb (fun _ hP => by simp [parentOf] at hP)
+    simp only [readLoc, List.getElem?_set_self hl, Except.ok.injEq] at hrc2
+    subst hrc2
+    simp only [Var.writeLoc, List.length_set, hl, if_true, List.set_set, Except.ok.injEq] at hwc
+    subst hwc
+    simp only [Var.writeLoc, hl, if_true]
+    refine ⟨_, rfl, (Inv.scalar rfl).mp invc, by simp, by simp [ValidLoc, hl], by simp [readLoc, hl], ?_⟩
+    have := getB_alloc_new (σ.heap.set id none) { b with cap := newcap }
+    simpa using this
+  | item P i =>
+    have hPi : P ≠ id := by intro e; exact hpar (by simp [parentOf, e])
+    obtain ⟨bP, hbP, hi⟩ := hl
+    have hPlt := getB_lt hbP
+    obtain ⟨σa, old, hra, hwa, inva, doma, _⟩ :=
+      ((Inv.scalar (v := V.none) rfl).mpr inv).writeLoc (l := .item P i) ⟨bP, hbP, hi⟩ (fun _ _ => by simp [handleOf])
+    rw [hr] at hra; cases hra
+    simp only [Var.writeLoc, hbP, hi, if_true, Except.ok.injEq] at hwa
+    subst hwa
+    have hba : getB (setB σ.heap P { bP with items := Map.setValAt bP.items i V.none }) id = .ok b := by
+      simp only [setB]; rw [getB_set_ne _ (Ne.symm hPi)]; exact hb
+    have invb := Inv.moveBlock newcap inva hba hrc
+    have g2 : getB (((setB σ.heap P { bP with items := Map.setValAt bP.items i V.none }).set id none) ++
+        [some { b with cap := newcap }]) P = .ok { bP with items := Map.setValAt bP.items i V.none } := by
+      rw [getB_append_left _ (by simp [setB]; exact hPlt), getB_set_ne _ hPi]
+      exact getB_setB_same _ hPlt
+    have hi2 : i < (Map.setValAt bP.items i V.none).length := by rw [AslProofs.Map.setValAt_length]; exact hi
+    obtain ⟨σc, old2, hrc2, hwc, invc, domc, hrc3⟩ := invb.writeLoc (l := .item P i) ⟨_, g2, hi2⟩ (by
+      intro P' hP'; rw [handleOf_mkHandle]
+      simp only [parentOf, Option.some.injEq] at hP'; subst hP'
+      intro e
+      have e' := Option.some.inj e
+      simp [setB] at e'
+      omega)
+    have hold2 : old2 = V.none := by
+      simp only [readLoc, g2] at hrc2
+      have hx : ((Map.setValAt bP.items i V.none)[i]'hi2).2 = V.none := by
+        have := congrArg (fun l => l[i]?) (map_snd_setValAt bP.items i V.none)
+        simp [hi, hi2] at this
+        exact this
+      simp only [List.getElem?_eq_getElem hi2, hx, Except.ok.injEq] at hrc2
+      exact hrc2.symm
+    subst hold2
+    simp only [Var.writeLoc, g2, hi2, if_true, setValAt_setValAt, Except.ok.injEq] at hwc
+    have g1 : getB ((σ.heap.set id none) ++ [some { b with cap := newcap }]) P = .ok bP := by
+      rw [getB_append_left _ (by simpa using hPlt), getB_set_ne _ hPi]; exact hbP
+    simp only [Var.writeLoc, g1, hi, if_true]
+    have hlen1 : (setB σ.heap P { bP with items := Map.setValAt bP.items i V.none }).length = σ.heap.length := by simp [setB]
+    have hσc : σc = State.mk (setB ((σ.heap.set id none) ++ [some { b with cap := newcap }]) P
+        { bP with items := Map.setValAt bP.items i (mkHandle b.isObj σ.heap.length) }) σ.slots := by
+      rw [← hwc]
+      simp only [hlen1]
+      congr 1
+      simp only [setB]
+      apply List.ext_getElem?
+      intro j
+      by_cases hjP : j = P
+      · subst hjP
+        rw [List.getElem?_set_self (by simp; omega), List.getElem?_set_self (by simp; omega)]
+      · rw [List.getElem?_set_ne (Ne.symm hjP), List.getElem?_set_ne (Ne.symm hjP)]
+        by_cases hjl : j < σ.heap.length
+        · rw [List.getElem?_append_left (by simpa using hjl), List.getElem?_append_left (by simpa using hjl)]
+          by_cases hji : j = id
+          · subst hji; simp [hjl]
+          · rw [List.getElem?_set_ne (Ne.symm hji), List.getElem?_set_ne (Ne.symm hji), List.getElem?_set_ne (Ne.symm hjP)]
+        · rw [List.getElem?_append_right (by simp; omega), List.getElem?_append_right (by simp; omega)]
+          simp
+    rw [← hσc]
+    refine ⟨σc, rfl, (Inv.scalar rfl).mp invc, ?_, ?_, ?_, ?_⟩
+    · rw [domc.1]
+    · exact domc.validLoc ⟨_, g2, hi2⟩
+    · rw [hlen1] at hrc3; exact hrc3
+    · rw [hσc]
+      have hNP : σ.heap.length ≠ P := by omega
+      simp only [setB]
+      rw [getB_set_ne _ hNP]
+      have := getB_alloc_new (σ.heap.set id none) { b with cap := newcap }
+      simpa using this
+
+
+/-! ## growth: reserve, insert, resize -/
+
+/-- outcome of an operation that may have moved block `b` (found at `id` through the Var at `l`) -/
+structure Grown (σ σ' : State) (l : Loc) (b : Block) (id' : Nat) : Prop where
+  slots : σ'.slots.length = σ.slots.length
+  valid : ValidLoc σ' l
+  read : readLoc σ' l = .ok (mkHandle b.isObj id')
+  blk : ∃ b', getB σ'.heap id' = .ok b' ∧ b'.items = b.items ∧ b'.isObj = b.isObj
+
+theorem relocate_refused {σ : State} {l : Loc} {id newcap : Nat} {b : Block}
+    (hb : getB σ.heap id = .ok b) (hrc : b.rc > 1) : Var.relocate true σ l id newcap = .error .sharedGrowth := by
+  unfold Var.relocate
+  simp [hb, hrc]
+
+theorem Inv.growTo {σ : State} {T : List V} {l : Loc} {id newcap : Nat} {b : Block}
+    (inv : Inv σ T) (hl : ValidLoc σ l) (hr : readLoc σ l = .ok (mkHandle b.isObj id)) (hb : getB σ.heap id = .ok b) :
+    Var.relocate true σ l id newcap = .error .sharedGrowth ∨
+    ∃ σ' id', Var.relocate true σ l id newcap = .ok (σ', id') ∧ Inv σ' T ∧ Grown σ σ' l b id' ∧
+      ∃ b', getB σ'.heap id' = .ok b' ∧ b'.items = b.items ∧ b'.cap = newcap := by
+  by_cases hrc : b.rc > 1
+  · exact Or.inl (relocate_refused hb hrc)
+  · have hpos := inv.wf.pos id b hb
+    have hrc1 : b.rc = 1 := by omega
+    obtain ⟨σ', hrel, inv', hs, hv, hrd, hg⟩ := inv.relocate (newcap := newcap) true hl hr hb hrc1
+    exact Or.inr ⟨σ', _, hrel, inv', ⟨hs, hv, hrd, _, hg, rfl, rfl⟩, _, hg, rfl, rfl⟩
+
+theorem Grown.refl {σ : State} {l : Loc} {b : Block} {id : Nat} (hl : ValidLoc σ l)
+    (hr : readLoc σ l = .ok (mkHandle b.isObj id)) (hb : getB σ.heap id = .ok b) : Grown σ σ l b id :=
+  ⟨rfl, hl, hr, b, hb, rfl, rfl⟩
+
+theorem Inv.reserveAt {σ : State} {T : List V} {l : Loc} {id m : Nat} {b : Block}
+    (inv : Inv σ T) (hl : ValidLoc σ l) (hr : readLoc σ l = .ok (mkHandle b.isObj id)) (hb : getB σ.heap id = .ok b) :
+    Var.reserveAt true σ l id m = .error .sharedGrowth ∨
+    ∃ σ' id', Var.reserveAt true σ l id m = .ok (σ', id') ∧ Inv σ' T ∧ Grown σ σ' l b id' ∧
+      ∃ b', getB σ'.heap id' = .ok b' ∧ b'.items = b.items ∧ m ≤ b'.cap := by
+  unfold Var.reserveAt
+  simp only [hb]
+  by_cases hm : m ≤ b.cap
+  · simp only [hm, if_true]
+    exact Or.inr ⟨σ, id, rfl, inv, Grown.refl hl hr hb, b, hb, rfl, hm⟩
+  · simp only [hm, if_false]
+    rcases inv.growTo (newcap := max (2 * b.cap) m) hl hr hb with h1 | ⟨σ', id', h1, inv', g, b', hb', e1, e2⟩
+    · exact Or.inl h1
+    · exact Or.inr ⟨σ', id', h1, inv', g, b', hb', e1, by rw [e2]; omega⟩
+
+theorem Inv.growInsertAt {σ : State} {T : List V} {l : Loc} {id : Nat} {b : Block}
+    (inv : Inv σ T) (hl : ValidLoc σ l) (hr : readLoc σ l = .ok (mkHandle b.isObj id)) (hb : getB σ.heap id = .ok b) :
+    Var.growInsertAt true σ l id = .error .sharedGrowth ∨
+    ∃ σ' id', Var.growInsertAt true σ l id = .ok (σ', id') ∧ Inv σ' T ∧ Grown σ σ' l b id' := by
+  unfold Var.growInsertAt
+  simp only [hb]
+  by_cases hm : b.items.length < b.cap
+  · simp only [hm, if_true]
+    exact Or.inr ⟨σ, id, rfl, inv, Grown.refl hl hr hb⟩
+  · simp only [hm, if_false]
+    rcases inv.growTo (newcap := 2 * b.cap) hl hr hb with h1 | ⟨σ', id', h1, inv', g, _⟩
+    · exact Or.inl h1
+    · exact Or.inr ⟨σ', id', h1, inv', g⟩
+
+theorem occ_replicate_none (j k : Nat) : occ j ((List.replicate k (([] : Bytes), V.none)).map (·.2)) = 0 := by
+  rw [occ_eq_zero_iff]
+  intro v hv
+  simp only [List.map_replicate, List.mem_replicate] at hv
+  rw [hv.2]; simp [handleOf]
+
+theorem readLoc_setB_ne {σ : State} {l : Loc} {id : Nat} (b' : Block) (h : parentOf l ≠ some id) :
+    readLoc { σ with heap := setB σ.heap id b' } l = readLoc σ l := by
+  cases l with
+  | slot k => rfl
+  | item P i =>
+    have hP : P ≠ id := by intro e; exact h (by simp [parentOf, e])
+    simp only [readLoc, setB, getB_set_ne _ hP]
+
+theorem validLoc_setB_ne {σ : State} {l : Loc} {id : Nat} (b' : Block) (h : parentOf l ≠ some id) (hl : ValidLoc σ l) :
+    ValidLoc { σ with heap := setB σ.heap id b' } l := by
+  cases l with
+  | slot k => exact hl
+  | item P i =>
+    have hP : P ≠ id := by intro e; exact h (by simp [parentOf, e])
+    obtain ⟨bP, hbP, hi⟩ := hl
+    exact ⟨bP, by simp only [setB, getB_set_ne _ hP]; exact hbP, hi⟩
+
+theorem noself_of_block {σ : State} {T : List V} (inv : Inv σ T) {id : Nat} {b : Block} (hb : getB σ.heap id = .ok b) :
+    ∀ v ∈ b.items.map (·.2), handleOf v ≠ some id := fun v hv => inv.noself id b hb v hv
+
+/-- `resize(m)` that does not shrink an array: default-constructed (NONE) elements are appended -/
+theorem Inv.resizeGrow {σ : State} {T : List V} {l : Loc} {id m : Nat} {b : Block}
+    (inv : Inv σ T) (hl : ValidLoc σ l) (hr : readLoc σ l = .ok (mkHandle b.isObj id)) (hb : getB σ.heap id = .ok b)
+    (harr : b.isObj = false) (hm : b.items.length ≤ m) :
+    Var.resizeAt true σ l id m = .error .sharedGrowth ∨
+    ∃ σ' id', Var.resizeAt true σ l id m = .ok (σ', id') ∧ Inv σ' T ∧ σ'.slots.length = σ.slots.length ∧
+      ValidLoc σ' l ∧ readLoc σ' l = .ok (mkHandle b.isObj id') ∧
+      ∃ b', getB σ'.heap id' = .ok b' ∧ b'.items = b.items ++ List.replicate (m - b.items.length) ([], V.none) ∧
+        b'.isObj = false := by
+  unfold Var.resizeAt
+  rcases inv.reserveAt (m := m) hl hr hb with h1 | ⟨σ1, id1, h1, inv1, g, b1, hb1, e1, _⟩
+  · left; simp [h1, bind, Except.bind]
+  · right
+    obtain ⟨b1', hb1', e1', e2'⟩ := g.blk
+    rw [hb1] at hb1'; cases hb1'
+    simp only [h1, bind, Except.bind, hb1, e1]
+    have hlt1 := getB_lt hb1
+    have hpar := ValidLoc.parent_ne inv1 g.read (handleOf_mkHandle _ _)
+    by_cases hgt : m > b.items.length
+    · simp only [hgt, if_true, pure, Except.pure]
+      have invr := Inv.reitems (σ := σ1) (T := T) (A := []) (B := []) (id := id1) (b := b1)
+        (items' := b1.items ++ List.replicate (m - b.items.length) ([], V.none)) (cap' := b1.cap)
+        (by simpa using inv1) hb1
+        (by intro j; simp only [List.map_append, occ_append, occ_replicate_none, occ_nil, bvals])
+        (by
+          intro v hv
+          simp only [List.map_append, List.append_nil, List.mem_append] at hv ⊢
+          rcases hv with h2 | h2
+          · exact Or.inr h2
+          · simp only [List.map_replicate, List.mem_replicate] at h2
+            left; rw [h2.2]; rfl)
+        (by intro ho; rw [e2', harr] at ho; cases ho)
+        (by
+          intro v hv
+          simp only [List.map_append, List.mem_append] at hv
+          rcases hv with h2 | h2
+          · exact noself_of_block inv1 hb1 v h2
+          · simp only [List.map_replicate, List.mem_replicate] at h2
+            rw [h2.2]; simp [handleOf])
+      rw [e1] at invr
+      refine ⟨_, id1, rfl, by simpa using invr, g.slots, validLoc_setB_ne _ hpar g.valid, ?_, _, getB_setB_same _ hlt1, ?_, ?_⟩
+      · rw [readLoc_setB_ne _ hpar]; exact g.read
+      · simp
+      · simp [e2', harr]
+    · have hmn : ¬ m < b.items.length := by omega
+      simp only [hgt, hmn, if_false, pure, Except.pure]
+      have hz : m - b.items.length = 0 := by omega
+      refine ⟨σ1, id1, rfl, inv1, g.slots, g.valid, g.read, b1, hb1, by simp [hz, e1], by rw [e2', harr]⟩
+
+/-- any `resize(m)` of the block behind the Var at `l` (shrinking destroys the cut elements) -/
+theorem Inv.resizeAny {σ : State} {T : List V} {l : Loc} {id m : Nat} {b : Block}
+    (inv : Inv σ T) (hl : ValidLoc σ l) (hr : readLoc σ l = .ok (mkHandle b.isObj id)) (hb : getB σ.heap id = .ok b)
+    (hgrow : b.items.length < m → b.isObj = false) :
+    Var.resizeAt true σ l id m = .error .sharedGrowth ∨
+    ∃ σ' id', Var.resizeAt true σ l id m = .ok (σ', id') ∧ Inv σ' T ∧ σ'.slots.length = σ.slots.length := by
+  by_cases hge : b.items.length ≤ m
+  · by_cases hlt : b.items.length < m
+    · rcases inv.resizeGrow hl hr hb (hgrow hlt) hge with h1 | ⟨σ', id', h1, inv', hs, _⟩
+      · exact Or.inl h1
+      · exact Or.inr ⟨σ', id', h1, inv', hs⟩
+    · -- m = n: only the reserve step
+      have hm : m = b.items.length := by omega
+      subst hm
+      unfold Var.resizeAt
+      rcases inv.reserveAt (m := b.items.length) hl hr hb with h1 | ⟨σ1, id1, h1, inv1, g, b1, hb1, e1, _⟩
+      · left; simp [h1, bind, Except.bind]
+      · right
+        simp only [h1, bind, Except.bind, hb1, e1, Nat.lt_irrefl, if_false, pure, Except.pure, gt_iff_lt]
+        exact ⟨σ1, id1, rfl, inv1, g.slots⟩
+  · -- shrink
+    have hlt : m < b.items.length := by omega
+    unfold Var.resizeAt
+    rcases inv.reserveAt (m := m) hl hr hb with h1 | ⟨σ1, id1, h1, inv1, g, b1, hb1, e1, _⟩
+    · left; simp [h1, bind, Except.bind]
+    · right
+      obtain ⟨b1', hb1', e1', e2'⟩ := g.blk
+      rw [hb1] at hb1'; cases hb1'
+      have hng : ¬ m > b.items.length := by omega
+      simp only [h1, bind, Except.bind, hb1, e1, hng, hlt, if_false, if_true]
+      have invr := Inv.reitems (σ := σ1) (T := T) (A := []) (B := (b1.items.drop m).map (·.2)) (id := id1) (b := b1)
+        (items' := b1.items.take m) (cap' := b1.cap)
+        (by simpa using inv1) hb1
+        (by
+          intro j
+          have : bvals b1 = (b1.items.take m).map (·.2) ++ (b1.items.drop m).map (·.2) := by
+            rw [← List.map_append, List.take_append_drop]; rfl
+          rw [this]; simp only [occ_append, occ_nil, Nat.add_zero])
+        (by
+          intro v hv
+          right
+          have : bvals b1 = (b1.items.take m).map (·.2) ++ (b1.items.drop m).map (·.2) := by
+            rw [← List.map_append, List.take_append_drop]; rfl
+          rw [this]; simpa using hv)
+        (by
+          intro ho
+          exact List.Pairwise.sublist (List.take_sublist m b1.items) (inv1.sorted id1 b1 hb1 ho))
+        (by
+          intro v hv
+          exact noself_of_block inv1 hb1 v (by
+            rw [List.mem_map] at hv ⊢
+            obtain ⟨kv, hkv, e⟩ := hv
+            exact ⟨kv, List.mem_of_mem_take hkv, e⟩))
+      obtain ⟨h', hd, inv', _⟩ := Inv.drop (wl := (b1.items.drop m).map (·.2)) (T := T) invr
+      rw [e1] at hd
+      simp only [hd, pure, Except.pure]
+      exact ⟨_, id1, rfl, inv', g.slots⟩
+
+
+/-! ## `operator[]` (non-const) -/
+
+/-- errors that refuse an operation without touching released storage -/
+def Benign (e : Err) : Prop := e = .sharedGrowth ∨ e = .cyclic ∨ e = .nopath ∨ e = .badarg ∨ e = .fuel
+
+theorem occ_insertAt (j : Nat) (l : List (Bytes × V)) (p : Nat) (x : Bytes × V) :
+    occ j ((Map.insertAt l p x).map (·.2)) = occ j (l.map (·.2)) + occ j [x.2] := by
+  unfold Map.insertAt
+  have : l.map (·.2) = (l.take p).map (·.2) ++ (l.drop p).map (·.2) := by
+    rw [← List.map_append, List.take_append_drop]
+  rw [this]
+  simp only [List.map_append, List.map_cons, occ_append, occ_cons, occ_nil]
+  omega
+
+theorem mem_insertAt {l : List (Bytes × V)} {p : Nat} {x y : Bytes × V} (h : y ∈ Map.insertAt l p x) : y = x ∨ y ∈ l := by
+  unfold Map.insertAt at h
+  simp only [List.mem_append, List.mem_cons] at h
+  rcases h with h | h | h
+  · exact Or.inr (List.mem_of_mem_take h)
+  · exact Or.inl h
+  · exact Or.inr (List.mem_of_mem_drop h)
+
+theorem mkHandle_true (id : Nat) : mkHandle true id = V.obj id := rfl
+theorem mkHandle_false (id : Nat) : mkHandle false id = V.arr id := rfl
+
+/-- `T& Map::operator[](key)` on the object behind the Var at `l` -/
+theorem Inv.indexKey {σ : State} {T : List V} {l : Loc} {id : Nat} {k : Bytes} {b : Block}
+    (inv : Inv σ T) (hl : ValidLoc σ l) (hr : readLoc σ l = .ok (.obj id)) (hb : getB σ.heap id = .ok b)
+    (ho : b.isObj = true) :
+    Var.indexKey true σ l id k = .error .sharedGrowth ∨
+    ∃ σ' id' p, Var.indexKey true σ l id k = .ok (σ', .item id' p) ∧ Inv σ' T ∧ σ'.slots.length = σ.slots.length ∧
+      ValidLoc σ' l ∧ readLoc σ' l = .ok (.obj id') ∧ ValidLoc σ' (.item id' p) := by
+  have hsort := inv.sorted id b hb ho
+  obtain ⟨r, hidx, hspec⟩ := AslProofs.Map.indexOf_spec cmpB_strict b.items k hsort
+  have hr' : readLoc σ l = .ok (mkHandle b.isObj id) := by rw [ho]; exact hr
+  unfold Var.indexKey
+  simp only [bind, Except.bind, hb, hidx]
+  by_cases hr0 : r ≥ 0
+  · right
+    simp only [hr0, if_true, pure, Except.pure]
+    obtain ⟨hlt, _⟩ := hspec.1 hr0
+    exact ⟨σ, id, r.toNat, rfl, inv, rfl, hl, hr, b, hb, hlt⟩
+  · simp only [hr0, if_false]
+    obtain ⟨hp, hlo, hhi⟩ := hspec.2 (by omega)
+    rcases inv.growInsertAt hl hr' hb with h1 | ⟨σ1, id1, h1, inv1, g⟩
+    · left; simp [h1]
+    · right
+      obtain ⟨b1, hb1, e1, e2⟩ := g.blk
+      simp only [h1, hb1, pure, Except.pure]
+      have hlt1 := getB_lt hb1
+      have hread1 : readLoc σ1 l = .ok (.obj id1) := by rw [g.read, ho]; rfl
+      have hpar := ValidLoc.parent_ne inv1 hread1 rfl
+      have invr := Inv.reitems (σ := σ1) (T := T) (A := []) (B := []) (id := id1) (b := b1)
+        (items' := Map.insertAt b1.items (-r - 1).toNat (k, V.none)) (cap' := b1.cap)
+        (by simpa using inv1) hb1
+        (by intro j; rw [occ_insertAt]; simp [occ_cons, occ_nil, handleOf, bvals])
+        (by
+          intro v hv
+          simp only [List.append_nil, List.mem_map] at hv ⊢
+          obtain ⟨y, hy, e⟩ := hv
+          rcases mem_insertAt hy with h2 | h2
+          · left; rw [← e, h2]; rfl
+          · right; rw [← e]; exact List.mem_map_of_mem h2)
+        (by
+          intro _
+          rw [e1]
+          exact AslProofs.Map.insertAt_sorted cmpB_strict hsort _ k V.none hlo hhi)
+        (by
+          intro v hv
+          simp only [List.mem_map] at hv
+          obtain ⟨y, hy, e⟩ := hv
+          rcases mem_insertAt hy with h2 | h2
+          · rw [← e, h2]; simp [handleOf]
+          · exact noself_of_block inv1 hb1 v (by rw [← e]; exact List.mem_map_of_mem h2))
+      refine ⟨_, id1, (-r - 1).toNat, rfl, by simpa using invr, g.slots, validLoc_setB_ne _ hpar g.valid, ?_, ?_⟩
+      · rw [readLoc_setB_ne _ hpar]; exact hread1
+      · refine ⟨_, getB_setB_same _ hlt1, ?_⟩
+        simp only []
+        rw [AslProofs.Map.insertAt_length _ _ (by rw [e1]; exact hp)]
+        rw [e1]; omega
 
 
 end AslModel.Var
